@@ -363,7 +363,10 @@ def _run_query_once(q, root, seed):
                 tr = trace_inputs(traces.get(pid, []))
                 res.setdefault('check_failures', []).append({'cbmc_property': pid, 'desc': desc, 'inputs': tr[:64]})
         missing = [c for c in q.covers if c not in cover_hit]
-        if missing:
+        if missing and res['violations'] and not res.get('unreproduced'):
+            # a natively reproduced violation that ends the path (abort, out-of-structure access) legitimately hides the witnesses
+            res['notes'].append('witness assertion(s) %s not reached: the reproduced violation ends the path first' % missing)
+        elif missing:
             raise Inconclusive('vacuity: witness assertion(s) %s not reachable/reproduced in %s' % (missing, q.name))
         if res.get('unreproduced'):
             res['status'] = 'inconclusive'
